@@ -246,7 +246,7 @@ def check_errors(lay, stats=None):
 
 @st.composite
 def cases(draw, opts):
-    lay = draw(multifile.layouts(opts))
+    lay = draw(multifile.layouts(opts, blank_focus=4))
     style = draw(st.sampled_from(['together', 'together', 'separate']))
     order = draw(st.permutations(list(range(lay.nfiles))))
     cwd_mode = draw(st.sampled_from(['keep', 'root', 'elsewhere']))
